@@ -745,9 +745,22 @@ func main() {
 			what := fmt.Sprintf("%s during %s (%s, %s) of %s: %s", ev.Kind, phaseName[ev.Phase], eng, fsn, in.Tag, fw.FirstLines(ev.Stderr, 3))
 			v := viol{Tag: in.Tag, Hex: hex.EncodeToString(in.B), FS: fsn, What: what}
 			v.Sig = sigOfEvent(ev)
+			if strings.HasPrefix(v.Sig, "exec-fault:") {
+				// name the root cause when the accepted module contains a known one (a fault inside
+				// generated code has no stable first line)
+				if dec, err := decodeForHarness(in.B, ev.F); err == nil && dec != nil {
+					if tg := causeTags(dec); tg != "" {
+						v.Sig = "exec-fault:" + tg + ":" + eng
+					}
+				}
+			}
 			switch {
 			case v.Sig == "":
-				tot.Timing["guest-did-not-terminate:killed-by-watchdog"]++
+				if ev.Kind == "crash" {
+					tot.Timing["exec:out-of-memory-within-wazero-limits-under-3GiB-ulimit"]++
+				} else {
+					tot.Timing["guest-did-not-terminate:killed-by-watchdog"]++
+				}
 				return
 			case strings.HasPrefix(v.Sig, "compile-hang:"):
 				tot.Outcomes["compile:hang"]++
